@@ -44,8 +44,17 @@ func BoundedModels(ex *symex.Exec, o *symex.Obligation, timeout time.Duration, s
 	}
 	b.WriteString("(assert (not " + o.Goal + "))\n")
 	var gv []string
+	var oterms []string // opaque strings: only their equalities are read back
 	for _, w := range o.Witness {
 		switch w.Kind {
+		case "ostr":
+			oterms = append(oterms, w.Term)
+		case "ostrs":
+			fmt.Fprintf(&b, "(assert (<= %s %d))\n", w.Len, maxElems)
+			gv = append(gv, w.Len)
+			for j := 0; j < maxElems; j++ {
+				oterms = append(oterms, fmt.Sprintf("(select %s %d)", w.Term, j))
+			}
 		case "int":
 			fmt.Fprintf(&b, "(assert (and (<= (- 1000) %s) (<= %s 1000)))\n", w.Term, w.Term)
 			gv = append(gv, w.Term)
@@ -68,12 +77,78 @@ func BoundedModels(ex *symex.Exec, o *symex.Obligation, timeout time.Duration, s
 			}
 		}
 	}
+	lits := ex.Literals()
+	for i, t := range oterms {
+		for j := i + 1; j < len(oterms); j++ {
+			gv = append(gv, fmt.Sprintf("(= %s %s)", t, oterms[j]))
+		}
+		for _, l := range lits {
+			gv = append(gv, fmt.Sprintf("(= %s %s)", t, l[0]))
+		}
+	}
 	b.WriteString("(check-sat)\n(get-value (" + strings.Join(gv, " ") + "))\n")
 	text := b.String()
 	dumpQuery(sanitizeName(o.Name), text)
 	var out []Candidate
-	results := []smt.Result{smt.FiniteModel(text, timeout, seed)}
-	if results[0].Status != smt.Sat {
+	var results []smt.Result
+	if len(oterms) > 0 {
+		// opaque-string obligations: ground relaxation first (fast, usually sat)
+		var asserts []string
+		asserts = append(asserts, o.Hyps...)
+		asserts = append(asserts, "(not "+o.Goal+")")
+		strTerms := append([]string(nil), oterms...)
+		for _, l := range lits {
+			strTerms = append(strTerms, l[0])
+		}
+		groundSlices = nil
+		for _, w := range o.Witness {
+			if w.Kind == "ostrs" {
+				groundSlices = append(groundSlices, [2]string{w.Term, w.Len})
+			}
+		}
+		groundStructs = map[string][]structVal{}
+		{
+			cur := map[string]*structVal{}
+			var order []string
+			for _, w := range o.Witness {
+				ps := strings.Split(w.Name, ".")
+				if len(ps) < 3 {
+					continue
+				}
+				key := ps[0] + "." + strings.Join(ps[1:len(ps)-1], ".")
+				if cur[key] == nil {
+					cur[key] = &structVal{}
+					order = append(order, key)
+				}
+				srt := map[string]string{"bool": "Bool", "ostr": "Str", "int": "Int"}[w.Kind]
+				if srt == "" {
+					srt = "?"
+				}
+				cur[key].terms = append(cur[key].terms, w.Term)
+				cur[key].sorts = append(cur[key].sorts, srt)
+			}
+			for _, key := range order {
+				field := key[strings.Index(key, ".")+1:]
+				groundStructs[field] = append(groundStructs[field], *cur[key])
+			}
+		}
+		rel := relax(ex.Prelude()+o.Extra, asserts, strTerms)
+		var extra strings.Builder
+		for _, w := range o.Witness {
+			if w.Kind == "ostrs" {
+				fmt.Fprintf(&extra, "(assert (and (<= 0 %s) (<= %s %d)))\n", w.Len, w.Len, maxElems)
+			}
+		}
+		gtext := "(set-option :model.completion true)\n" + rel + extra.String() + "(check-sat)\n(get-value (" + strings.Join(gv, " ") + "))\n"
+		dumpQuery(sanitizeName(o.Name)+"_ground", gtext)
+		r := smt.SolveQuick(gtext, timeout/2, seed)
+		r.Solver += "-ground"
+		results = append(results, r)
+	}
+	if len(results) == 0 || results[0].Status != smt.Sat {
+		results = append(results, smt.FiniteModel(text, timeout/2, seed))
+	}
+	if results[len(results)-1].Status != smt.Sat && len(oterms) == 0 {
 		results = append(results, smt.SolveAll("(set-option :model.completion true)\n"+text, timeout/2, seed)...)
 	}
 	for _, r := range results {
@@ -89,6 +164,52 @@ func BoundedModels(ex *symex.Exec, o *symex.Obligation, timeout time.Duration, s
 		}
 		c := Candidate{Values: map[string]interface{}{}, Solver: r.Solver, Status: string(r.Status), Raw: r.Output}
 		ok := true
+		// opaque strings: equivalence classes of the model, named by a literal when equal to one
+		otext := map[string]string{}
+		{
+			parent := map[string]string{}
+			var find func(string) string
+			find = func(x string) string {
+				if parent[x] == "" || parent[x] == x {
+					parent[x] = x
+					return x
+				}
+				parent[x] = find(parent[x])
+				return parent[x]
+			}
+			for i, t := range oterms {
+				find(t)
+				for j := i + 1; j < len(oterms); j++ {
+					if vals[normSpace(fmt.Sprintf("(= %s %s)", t, oterms[j]))] == "true" {
+						parent[find(t)] = find(oterms[j])
+					}
+				}
+			}
+			classLit := map[string]string{}
+			hasLit := map[string]bool{}
+			for _, t := range oterms {
+				for _, l := range lits {
+					if vals[normSpace(fmt.Sprintf("(= %s %s)", t, l[0]))] == "true" {
+						classLit[find(t)] = l[1]
+						hasLit[find(t)] = true
+					}
+				}
+			}
+			n := 0
+			names := map[string]string{}
+			for _, t := range oterms {
+				r := find(t)
+				if hasLit[r] {
+					otext[t] = classLit[r]
+					continue
+				}
+				if names[r] == "" {
+					n++
+					names[r] = fmt.Sprintf("s%d", n)
+				}
+				otext[t] = names[r]
+			}
+		}
 		str := func(t string) string {
 			n, okn := vals["(slen "+t+")"]
 			if !okn {
@@ -122,6 +243,19 @@ func BoundedModels(ex *symex.Exec, o *symex.Obligation, timeout time.Duration, s
 				c.Values[w.Name] = vals[w.Term] == "true"
 			case "str":
 				c.Values[w.Name] = str(w.Term)
+			case "ostr":
+				c.Values[w.Name] = otext[w.Term]
+			case "ostrs":
+				n, _ := strconv.Atoi(vals[w.Len])
+				if n < 0 || n > maxElems {
+					ok = false
+					n = 0
+				}
+				var ss []string
+				for j := 0; j < n; j++ {
+					ss = append(ss, otext[fmt.Sprintf("(select %s %d)", w.Term, j)])
+				}
+				c.Values[w.Name] = ss
 			case "bytes":
 				n, _ := strconv.Atoi(vals[w.Len])
 				if n < 0 || n > 24 {
